@@ -6,6 +6,8 @@ sys.path.insert(0, os.path.dirname(os.path.abspath(__file__)))
 import manifest_src as M
 checks = []
 for pid, c in sorted(M.CLAIMS.items()):
+    if pid not in M.REVIEWED:
+        continue
     checks.append({
         "property_id": pid,
         "quick_cmd": f"./check {pid} --tier quick",
@@ -17,7 +19,7 @@ for pid, c in sorted(M.CLAIMS.items()):
         "level_note": c["note"],
         "technique": c["technique"],
     })
-na = [{"property_id": p, "reason": r} for p, r in sorted(M.NOT_CLAIMED.items()) if p not in M.CLAIMS]
+na = [{"property_id": p, "reason": r} for p, r in sorted(M.NOT_CLAIMED.items()) if not (p in M.CLAIMS and p in M.REVIEWED)]
 man = {
     "version": 1,
     "setup_cmd": "./setup.sh",
@@ -30,7 +32,7 @@ man = {
     },
     "engines": [{
         "name": "lean-model+correspondence", "path": "/verif/check",
-        "serves_properties": sorted(M.CLAIMS.keys()),
+        "serves_properties": sorted(p for p in M.CLAIMS if p in M.REVIEWED),
         "kind_free_text": "Lean 4 theorems about a hand-written executable model (lean/Snel), constants regenerated from the Rust source, differential correspondence of the compiled model against the real code through /verif/harness, implementation-side property oracle for failing-input search",
     }],
     "checks": checks,
